@@ -26,12 +26,12 @@ RULE = ('cases = pipelines of 2-6 steps over the whole catalogue (always with >=
         'positions p x phases {package definition, first / second / last row of a resource, resource exhaustion, end of all '
         'resources} of an inserted failing step, x faults through callables of built-in steps (filter_rows condition, '
         'add_computed_field operation, set_type transform, validate validator, sort_rows key, finalizer callback, conditional '
-        'predicate) x source faults (iterable raising inside / beyond the 100-row sample, row of the wrong type beyond the '
+        'predicate) x a step failing upstream of parallelize (N 1-3 workers, drawn schedule, scheduler shim) x source faults (iterable raising inside / beyond the 100-row sample, row of the wrong type beyond the '
         'sample) x exception class drawn from {ValueError, KeyError, custom, AssertionError, tableschema CastError, '
         'datapackage CastError, tableschema UniqueKeyError, dataflows / tableschema / datapackage ValidationError, tableschema SourceError, OSError}, each observed through process() and '
         'results(); non-trivial: the fault fired and >=1 artefact-writing step sits after it; distinct by (case, fault)')
 ASSUMPTIONS = [
-    'parallelize is not part of these pipelines (its error handling is a known finding, see C18)',
+    'parallelize takes part through a dedicated fault (a step failing upstream of it), executed under the C18 scheduler shim',
     'a fault that never fires (e.g. "last row" of an empty resource) is not counted',
 ]
 BUDGET = {'quick': dict(examples=48, shards=16, seconds=80, chunk=3),
@@ -89,8 +89,10 @@ def cases_(draw):
                                      'conditional', 'source-raise', 'source-badtype', 'row_fn', 'row_fn']))
         extra.append({'via': kind, 'at': draw(st.integers(0, n)), 'row': draw(st.sampled_from([0, 1, 50, 99, 100, 101, 150])),
                       'exc': draw(st.sampled_from(EXC))})
+    par = [{'row': draw(st.sampled_from([0, 1, 2, 4])), 'exc': draw(st.sampled_from(EXC)), 'N': draw(st.integers(1, 3)),
+            'schedule': draw(st.lists(st.integers(0, 5), max_size=60))} for _ in range(draw(st.integers(1, 2)))]
     return {'pkg': prog['pkg'], 'steps': steps, 'exc_seed': draw(st.lists(st.sampled_from(EXC), min_size=12, max_size=12)),
-            'res_pick': draw(st.integers(0, 5)), 'extra': extra}
+            'res_pick': draw(st.integers(0, 5)), 'extra': extra, 'par': par}
 
 
 def cases(tier):
@@ -311,6 +313,15 @@ def check(case, ctx):
                 fired_n += 1
                 if n_after:
                     subkeys.append('x%s%d%d%s' % (x['via'], x['at'], x['row'], mode))
+    # ---- (iv) a step failing upstream of parallelize (run under the harness-owned scheduler of C18)
+    for px in case.get('par', []):
+        for mode in ('process', 'results'):
+            label = {'fault': 'upstream-of-parallelize', 'row': px['row'], 'exc': px['exc'], 'N': px['N'], 'program': prog}
+            fired, n_after = run_parallelize_fault(case, ctx, mode, px, label)
+            runs += 1
+            if fired:
+                fired_n += 1
+                subkeys.append('p%d%s%d%s' % (px['row'], px['exc'], px['N'], mode))
     classes = ['len=%d' % n] + sorted({'k:' + k for k in prog if k in ARTEFACT_KINDS})
     return Info(nontrivial=len(subkeys) >= 1, classes=classes, evals=runs, subkeys=subkeys,
                 extra={'fault_runs': runs, 'fault_runs_where_the_fault_fired': fired_n,
@@ -358,3 +369,60 @@ def run_badtype(case, ctx, mode, build, x, label):
         if committed:
             raise Violation('artefact-committed-after-failure:%s' % committed[0][0], dict(label, mode=mode, committed=committed))
     return True, 1 if first_val is not None else 0
+
+
+def _par_row(row):
+    row['id'] = row['id']
+
+
+def run_parallelize_fault(case, ctx, mode, px, label):
+    """FeedStep -> step raising at row k -> parallelize(N workers) -> dump_to_path, executed under the cooperative
+    scheduler (vlib/sched.py) with a drawn schedule: the error must surface as ProcessorError(cause=original), every
+    task must end (no deadlock), and the dump after parallelize must not be committed."""
+    from vlib import sched as vsched
+    data = [{'id': i} for i in range(6)]
+    desc = gen.descriptor_of([{'name': 'res_1', 'fields': [{'name': 'id', 'type': 'integer'}], 'rows': data}])
+    fired = Fired()
+    out_dir = os.path.join(ctx.tmpdir(), 'dump')
+
+    def failing(rows):
+        for i, r in enumerate(rows):
+            if i == px['row']:
+                fired.exc = make_exc(px['exc'])
+                raise fired.exc
+            yield r
+    s = vsched.Scheduler(px['schedule'])
+    res = {}
+
+    def consumer():
+        try:
+            flow = Flow(FeedStep(desc, [data]), failing, dataflows.parallelize(_par_row, num_processors=px['N']),
+                        dataflows.dump_to_path(out_dir))
+            if mode == 'process':
+                flow.process()
+            else:
+                flow.results()
+        except Exception as e:
+            res['err'] = e
+    try:
+        with vsched.patched(s), quiet():
+            s.run(consumer)
+    except vsched.Deadlock as e:
+        raise Violation('parallelize:upstream-error-deadlocks', dict(label, mode=mode, error=str(e)[:200]))
+    except vsched.StepLimit as e:
+        raise Violation('parallelize:upstream-error-never-terminates', dict(label, mode=mode))
+    if fired.exc is None:
+        return False, 0
+    err = res.get('err')
+    if err is None:
+        raise Violation('run-returned-normally-after-a-step-raised', dict(label, mode=mode))
+    if not isinstance(err, ProcessorError):
+        raise Violation('not-a-ProcessorError:%s' % type(err).__name__, dict(label, mode=mode, error=str(err)[:200]))
+    if not any(x is fired.exc for x in cause_chain(err)):
+        raise Violation('cause-is-not-the-original-exception', dict(label, mode=mode, got=[type(x).__name__ for x in cause_chain(err)]))
+    unfinished = [t.name for t in s.tasks if not t.done and t.feeder is None]
+    if unfinished:
+        raise Violation('parallelize:tasks-left-running-after-upstream-error', dict(label, mode=mode, tasks=unfinished))
+    if os.path.exists(os.path.join(out_dir, 'datapackage.json')):
+        raise Violation('artefact-committed-after-failure:dump_to_path', dict(label, mode=mode))
+    return True, 1
